@@ -50,8 +50,8 @@ theorem keeps_load (env : Env) (hwf : env.cfg.WF) (sc : Core) (hsc : CoreOk env.
     · exact keeps_finalExit env s h
     · exact h
 
-theorem apiStep_keeps {w : World} {env : Env} (hwf : env.cfg.WF) (hw : WorldOk env.cfg w) {slot : Option Core} {c : Core} {f : Step}
-    (h : ApiStep env.cfg w env slot c f) (hs : ∀ c0, slot = some c0 → CoreOk env.cfg c0) :
+theorem apiStep_keeps {w : World} {env : Env} (hwf : env.cfg.WF) (hw : WorldOk env.cfg w) {tag : ApiTag} {slot : Option Core} {c : Core} {f : Step}
+    (h : ApiStep env.cfg w env tag slot c f) (hs : ∀ c0, slot = some c0 → CoreOk env.cfg c0) :
     CoreOk env.cfg c ∧ Keeps (CoreOk env.cfg) f := by
   cases h with
   | constructManual lg => exact ⟨coreOk_init _ _, keeps_skip _⟩
@@ -64,7 +64,8 @@ theorem apiStep_keeps {w : World} {env : Env} (hwf : env.cfg.WF) (hw : WorldOk e
   | change c d p _ hd => exact ⟨hs _ rfl, keeps_extChange env d hd p⟩
   | immediate c d p _ hd => exact ⟨hs _ rfl, Keeps.seq (keeps_extChange env d hd p) (keeps_processRequest env)⟩
   | status c id ok => exact ⟨hs _ rfl, keeps_extStatus env id ok⟩
-  | planEdit c a hp => exact ⟨hs _ rfl, keeps_applyAction env .plan 255 0 a hp⟩
+  | planAppend c o d p hp => exact ⟨hs _ rfl, keeps_applyAction env .plan 255 0 _ hp⟩
+  | planEdit c a _ hp => exact ⟨hs _ rfl, keeps_applyAction env .plan 255 0 a hp⟩
   | load c sc src hsrc hm =>
     refine ⟨hs _ rfl, keeps_load env hwf sc (hw src sc hsrc) ?_⟩
     rcases hm with hm | ⟨_, hm⟩
@@ -84,7 +85,7 @@ theorem stepAll_worldOk (cfg : Cfg) (hwf : cfg.WF) (beh : Beh) (w : World) (k : 
   | step op' hs _ =>
     cases hs with
     | rejected name => exact hw
-    | call slot c f ret name hget hf =>
+    | call tag slot c f ret name htag hget hf =>
       rw [onCore_fst]
       obtain ⟨hc, hk⟩ := apiStep_keeps (env := ⟨cfg, beh, op.inst, k⟩) hwf hw hf (fun c0 e => hw _ c0 (by rw [hget, e]))
       exact worldOk_put hw _ _ (fun c0 e => by cases e; exact hk _ hc)
